@@ -76,6 +76,11 @@ Definition stmt_imps (s : stmt) : list imp :=
 Definition all_imps (m : module) : list imp := flat_map stmt_imps m.
 Definition all_items (m : module) : list item := flat_map imp_items (all_imps m).
 
+(* import statements alone on their line at module level (libcst: SimpleStatementLine in Module.body) *)
+Definition top_imps (m : module) : list imp :=
+  flat_map (fun s => match s with SImp i => [i] | _ => [] end) m.
+Definition top_items (m : module) : list item := flat_map imp_items (top_imps m).
+
 Definition pick (c : ctx) (b : list (ctx * imp)) : list imp :=
   flat_map (fun ci => match fst ci, c with
                       | CRun, CRun | CLocal, CLocal | CTC, CTC => [snd ci]
@@ -99,6 +104,14 @@ Definition stmt_tc_imps (s : stmt) : list imp :=
   end.
 
 Definition run_items (m : module) : list item := flat_map imp_items (flat_map stmt_run_imps m).
+(* run-time imports nested in module-level compound statements (try / if / with ... bodies) *)
+Definition stmt_nested_run (s : stmt) : list imp :=
+  match s with
+  | SComp _ b => pick CRun b
+  | SClass _ _ _ b => pick CRun b
+  | _ => []
+  end.
+Definition nested_run_items (m : module) : list item := flat_map imp_items (flat_map stmt_nested_run m).
 Definition tc_items (m : module) : list item := flat_map imp_items (flat_map stmt_tc_imps m).
 
 (* ---------------------------------------------------------------- GatherImportsVisitor.symbol_mapping *)
@@ -134,10 +147,12 @@ Fixpoint gather_go (stars : list string) (d : list (string * item)) (is : list i
   end.
 
 Definition gather (m : module) : list item := map snd (gather_go [] [] (all_imps m)).
+(* proposed patch C16-4: for the source only the module-level import statements count *)
+Definition gather_top (m : module) : list item := map snd (gather_go [] [] (top_imps m)).
 
-(* cli.get_newly_imported_items: set(stub symbol mapping) - set(source symbol mapping) *)
+(* cli.get_newly_imported_items: set(stub symbol mapping) - set(symbol mapping of the source's module-level imports) *)
 Definition newly (stub src : module) : list item :=
-  filter (fun it => negb (memb it (gather src))) (gather stub).
+  filter (fun it => negb (memb it (gather_top src))) (gather stub).
 
 (* _remove_typing_module (with proposed patch C16-3: the module of the TypedDict base class stays at runtime) *)
 Definition runtime_module (md : string) : bool :=
@@ -214,38 +229,15 @@ Definition rm_imp (moved : list item) (i : imp) : option imp :=
   | IStar _ => Some i
   end.
 
-Fixpoint rm_imps (moved : list item) (b : list imp) : list imp :=
-  match b with
-  | [] => []
-  | i :: r => match rm_imp moved i with
-              | Some i' => i' :: rm_imps moved r
-              | None => rm_imps moved r
-              end
-  end.
-
-Fixpoint rm_body (moved : list item) (b : list (ctx * imp)) : list (ctx * imp) :=
-  match b with
-  | [] => []
-  | (c, i) :: r => match rm_imp moved i with
-                   | Some i' => (c, i') :: rm_body moved r
-                   | None => rm_body moved r
-                   end
-  end.
-
+(* proposed patch C16-4: the transformer does not descend into compound statements *)
 Fixpoint remove (moved : list item) (m : module) : module :=
   match m with
   | [] => []
-  | s :: r =>
-      match s with
-      | SImp i => match rm_imp moved i with
-                  | Some i' => SImp i' :: remove moved r
-                  | None => remove moved r
-                  end
-      | SIfTC b => SIfTC (rm_imps moved b) :: remove moved r
-      | SComp t b => SComp t (rm_body moved b) :: remove moved r
-      | SClass n bs t b => SClass n bs t (rm_body moved b) :: remove moved r
-      | _ => s :: remove moved r
-      end
+  | SImp i :: r => match rm_imp moved i with
+                   | Some i' => SImp i' :: remove moved r
+                   | None => remove moved r
+                   end
+  | s :: r => s :: remove moved r
   end.
 
 (* ---------------------------------------------------------------- the block: AddImportsVisitor on an empty module *)
@@ -332,8 +324,17 @@ Definition insert_block (moved : list item) (m : module) : module :=
   end.
 
 (* ---------------------------------------------------------------- transform_module_impl *)
+(* proposed patch C16-5: an import that an existing module-level `if TYPE_CHECKING:` block already holds (put there by
+   the source or by an earlier application) gets no second block; the symbol mapping of those blocks' imports *)
+Definition tc_block_imps (m : module) : list imp :=
+  flat_map (fun s => match s with SIfTC b => b | _ => [] end) m.
+Definition already_confined (m : module) : list item := map snd (gather_go [] [] (tc_block_imps m)).
+Definition to_block (moved : list item) (m : module) : list item :=
+  filter (fun it => negb (memb it (already_confined m))) moved.
+
 Definition confine_with (moved : list item) (applied : module) : module :=
-  insert_block moved (remove moved (add_tc applied)).
+  let t := remove moved (add_tc applied) in
+  insert_block (to_block moved t) t.
 
 (* stub: the stub module; src: the source module; applied: libcst's ApplyTypeAnnotationsVisitor output *)
 Definition confine (stub src applied : module) : option module :=
@@ -393,18 +394,21 @@ Definition future_head (m : module) : bool :=
   | _ => future_head_body m
   end.
 
-(* finding class: an import item of the source is absent from the source's symbol mapping (a later import
-   binds the same name to something else) and the stub asks for exactly that item, so it is "newly imported" *)
+(* finding class: a module-level import item of the source is absent from the symbol mapping of the source's module-level
+   imports (a later module-level import binds the same name, or a star import of its module precedes it) and the stub
+   asks for exactly that item, so it is "newly imported" *)
 Definition kf_shadow (stub src : module) : bool :=
-  existsb (fun it => memb it (moved_items stub src)) (all_items src).
+  existsb (fun it => memb it (moved_items stub src)) (top_items src).
 
-(* finding class: libcst's apply step put a run-time import into the module that MonkeyType's
-   stub-minus-source difference does not list (the source imports it only under TYPE_CHECKING / in a function,
-   or libcst qualified a clashing name and added `import m`) *)
+(* finding class: libcst's apply step put a module-level import into the module that MonkeyType's
+   stub-minus-source difference does not list (libcst qualified a clashing name and added `import m`) *)
 Definition allowed_runtime (src : module) (it : item) : bool :=
   memb it (run_items src) || runtime_module (i_mod it) || String.eqb (i_mod it) "__future__".
 Definition kf_apply_extra (stub src applied : module) : bool :=
-  existsb (fun it => negb (allowed_runtime src it) && negb (memb it (moved_items stub src))) (run_items applied).
+  existsb (fun it => negb (allowed_runtime src it) && negb (memb it (moved_items stub src))) (top_items applied).
+(* modelled-libcst assumption: the apply step adds imports at module level only *)
+Definition nested_ok (src applied : module) : bool :=
+  forallb (allowed_runtime src) (nested_run_items applied).
 
 (* well-formed import statements name at least one thing (Python's grammar) *)
 Definition wf_imp (i : imp) : bool :=
